@@ -86,24 +86,24 @@ Section DerivedG.
     intros ->. reflexivity.
   Qed.
 
-  Lemma plan_residual_g p a : mind <= maxd -> run = Ok p ->
+  Lemma plan_residual_g p a : run = Ok p ->
     orc O (map (fun c => c + buffer) full) = Some a -> Z.of_N a = assumed ->
     p_cross p = full
-    /\ ((length full < Z.to_nat cap)%nat -> optZ (p_change p) < mind + buffer + fee).
+    /\ (mind <= maxd -> (length full < Z.to_nat cap)%nat -> optZ (p_change p) < mind + buffer + fee).
   Proof.
-    intros Hmm Hp HO Ha. use_spec p Hp.
+    intros Hp HO Ha. use_spec p Hp.
     assert (B0 : 0 <= buffer) by (unfold zatoshi in *; lia).
     assert (F0 : 0 <= fee) by (unfold zatoshi in *; lia).
     assert (T0 : 0 <= total) by (unfold zatoshi in *; lia).
     pose proof (split_cost_g total buffer fee L (Z.to_nat cap) (nc =? 1) T0) as C. cbn zeta in C.
-    pose proof (split_residual_g total buffer fee L mind maxd HL B0 F0 (Z.to_nat cap) (nc =? 1) Hmm) as R. cbn zeta in R.
+    pose proof (split_residual_g total buffer fee L mind maxd HL B0 F0 (Z.to_nat cap) (nc =? 1)) as R. cbn zeta in R.
     destruct full as [|x l] eqn:F.
     - assert (k = O) by (cbn [length] in K1; lia). subst k. cbn [firstn].
-      split; [reflexivity|]. intros Hl. specialize (R Hl).
+      split; [reflexivity|]. intros Hmm Hl. specialize (R Hmm Hl).
       rewrite K4 in * by reflexivity. rewrite optZ_rem by lia.
       rewrite (assumed_of_empty F) in R. cbn [notes_of map sumZ fold_right] in *. lia.
     - destruct (K6 a ltac:(discriminate) HO ltac:(rewrite Ha; exact C)) as [-> ->].
-      rewrite firstn_all. split; [reflexivity|]. intros Hl. specialize (R Hl).
+      rewrite firstn_all. split; [reflexivity|]. intros Hmm Hl. specialize (R Hmm Hl).
       rewrite optZ_rem by lia. rewrite Ha. exact R.
   Qed.
 End DerivedG.
@@ -156,8 +156,9 @@ Section Derived.
     /\ ((length full < Z.to_nat cap)%nat -> optZ (p_change p) < MIN + buffer + fee).
   Proof.
     intros Hp HO Ha. rewrite <- split_of_series in *. rewrite <- assumed_of_series in Ha.
-    exact (plan_residual_g total nc cap buffer fee orc series MIN CAP zip318_ladder Htotal Hbuffer Hfee Hcap0 p a
-             MIN_le_CAP Hp HO Ha).
+    destruct (plan_residual_g total nc cap buffer fee orc series MIN CAP zip318_ladder Htotal Hbuffer Hfee Hcap0 p a
+                Hp HO Ha) as [R1 R2].
+    split; [exact R1 | exact (R2 MIN_le_CAP)].
   Qed.
 End Derived.
 
